@@ -9,6 +9,8 @@ package main
 
 import (
 	"fmt"
+	"go/token"
+	"go/types"
 	"regexp"
 	"sort"
 	"strings"
@@ -22,13 +24,14 @@ type literal struct {
 }
 
 type dpath struct {
+	Facts   []Fact // the raw (un-abbreviated) conditions of the path, in the function's own keys
 	Lits    []literal
 	Stores  map[string]string // field -> canonical value key
 	Result  string            // canonical key of the result ("true"/"false"/"nil"/value key)
 	Results []ssa.Value       // all results, resolved along the path (phis, spilled named results)
 }
 
-var idRe = regexp.MustCompile(`@b\d+i\d+`)
+var idRe = regexp.MustCompile(`@(?:~[^:@\s]*:)?b\d+i\d+`)
 
 func canon(k string) string { return idRe.ReplaceAllString(k, "") }
 
@@ -66,6 +69,7 @@ func enumPaths(fl *Flow, maxPaths int) ([]dpath, error) {
 	}
 	var out []dpath
 	type state struct {
+		facts  []Fact
 		lits   []literal
 		stores map[string]string
 		phis   map[*ssa.Phi]ssa.Value
@@ -109,7 +113,7 @@ func enumPaths(fl *Flow, maxPaths int) ([]dpath, error) {
 			return
 		}
 		// copy state
-		ns := state{lits: append([]literal{}, st.lits...), stores: map[string]string{}, phis: map[*ssa.Phi]ssa.Value{}, locals: map[*ssa.Alloc]ssa.Value{}, onPath: map[*ssa.BasicBlock]bool{}}
+		ns := state{facts: append([]Fact{}, st.facts...), lits: append([]literal{}, st.lits...), stores: map[string]string{}, phis: map[*ssa.Phi]ssa.Value{}, locals: map[*ssa.Alloc]ssa.Value{}, onPath: map[*ssa.BasicBlock]bool{}}
 		for k, v := range st.stores {
 			ns.stores[k] = v
 		}
@@ -171,28 +175,45 @@ func enumPaths(fl *Flow, maxPaths int) ([]dpath, error) {
 						if v.Type().String() == "bool" {
 							// symbolic boolean result: split into the two outcomes
 							for _, truth := range []bool{true, false} {
+								if alts, ok := helperOutcomes(fl, v, truth, func(x ssa.Value) ssa.Value { return resolve(&ns, x) }); ok {
+									for _, afs := range alts {
+										lits := append([]literal{}, ns.lits...)
+										facts := append([]Fact{}, ns.facts...)
+										for _, f := range afs {
+											facts = append(facts, f)
+											if l, ok := litOf(f); ok {
+												lits = append(lits, l)
+											}
+										}
+										out = append(out, dpath{facts, lits, ns.stores, map[bool]string{true: "true", false: "false"}[truth], allRes})
+									}
+									continue
+								}
 								var fs []Fact
 								fl.decompose(v, truth, &fs)
 								lits := append([]literal{}, ns.lits...)
+								facts := append([]Fact{}, ns.facts...)
 								for _, f := range fs {
+									facts = append(facts, f)
 									if l, ok := litOf(f); ok {
 										lits = append(lits, l)
 									}
 								}
-								out = append(out, dpath{lits, ns.stores, map[bool]string{true: "true", false: "false"}[truth], allRes})
+								out = append(out, dpath{facts, lits, ns.stores, map[bool]string{true: "true", false: "false"}[truth], allRes})
 							}
 							return
 						}
 						res = abbrevFn(canon(fl.K.Key(v)))
 					}
 				}
-				out = append(out, dpath{ns.lits, ns.stores, res, allRes})
+				out = append(out, dpath{ns.facts, ns.lits, ns.stores, res, allRes})
 				return
 			}
 		}
 		for _, s := range b.Succs {
 			cs := ns
 			cs.lits = append([]literal{}, ns.lits...)
+			cs.facts = append([]Fact{}, ns.facts...)
 			// edge literals; conditions on phis are resolved along the path
 			if iff, ok := b.Instrs[len(b.Instrs)-1].(*ssa.If); ok && len(b.Succs) == 2 && b.Succs[0] != b.Succs[1] {
 				cond := resolve(&ns, iff.Cond)
@@ -201,10 +222,27 @@ func enumPaths(fl *Flow, maxPaths int) ([]dpath, error) {
 					if isBoolConst(cond, true) != truth {
 						continue // infeasible on this path
 					}
+				} else if alts, ok := helperOutcomes(fl, cond, truth, func(v ssa.Value) ssa.Value { return resolve(&ns, v) }); ok {
+					// the condition is the verdict of a loop-free boolean helper of this package:
+					// splice in each of the helper's own paths that deliver this verdict
+					for _, fs := range alts {
+						as := cs
+						as.lits = append([]literal{}, cs.lits...)
+						as.facts = append([]Fact{}, cs.facts...)
+						for _, f := range fs {
+							as.facts = append(as.facts, f)
+							if l, ok := litOf(f); ok {
+								as.lits = append(as.lits, l)
+							}
+						}
+						walk(s, b, as)
+					}
+					continue
 				} else {
 					var fs []Fact
 					fl.decompose(cond, truth, &fs)
 					for _, f := range fs {
+						cs.facts = append(cs.facts, f)
 						if l, ok := litOf(f); ok {
 							cs.lits = append(cs.lits, l)
 						}
@@ -333,3 +371,94 @@ func compareTable(paths []dpath, refAtoms []string, ref func(val func(string) bo
 	}
 	return n, ""
 }
+
+// helperOutcomes: if cond (possibly negated) is a call of a loop-free, store-free boolean
+// function of the analysed function's own package, it returns, for the requested truth value
+// of cond, the condition sets of the helper's paths that deliver it, re-expressed in the
+// caller's terms. "Extract the three-chain test into isDirectChild(a, b)" thereby leaves the
+// decision table unchanged.
+func helperOutcomes(fl *Flow, cond ssa.Value, truth bool, resolve func(ssa.Value) ssa.Value) ([][]Fact, bool) {
+	for {
+		u, ok := cond.(*ssa.UnOp)
+		if !ok || u.Op != token.NOT {
+			break
+		}
+		cond, truth = u.X, !truth
+	}
+	call, ok := cond.(*ssa.Call)
+	if !ok {
+		return nil, false
+	}
+	callee := call.Call.StaticCallee()
+	if callee == nil || callee == fl.Fn || callee.Blocks == nil || callee.Synthetic != "" || funcPkgPath(callee) != funcPkgPath(fl.Fn) ||
+		callee.Signature.Results().Len() != 1 || !types.Identical(callee.Signature.Results().At(0).Type(), types.Typ[types.Bool]) {
+		return nil, false
+	}
+	if helperDepth > 3 {
+		return nil, false
+	}
+	// store-free: a helper that writes fields is not a pure predicate
+	pure := true
+	eachInstr(callee, func(in ssa.Instruction) {
+		switch x := in.(type) {
+		case *ssa.Store:
+			if rootAlloc(x.Addr) == nil {
+				pure = false
+			}
+		case *ssa.MapUpdate, *ssa.Send, *ssa.Go, *ssa.Defer:
+			pure = false
+		}
+	})
+	if !pure {
+		return nil, false
+	}
+	helperDepth++
+	paths, err := enumPaths(NewFlow(fl.P, callee), 256)
+	helperDepth--
+	if err != nil {
+		return nil, false
+	}
+	args := make([]string, len(call.Call.Args))
+	for i, a := range call.Call.Args {
+		args[i] = fl.K.Key(resolve(a))
+	}
+	tag := "@~" + callee.Name() + ":b${1}i${2}"
+	subst := func(k string) string {
+		k = localIDRe.ReplaceAllString(k, tag)
+		return paramRe.ReplaceAllStringFunc(k, func(m string) string {
+			i := 0
+			for _, ch := range m[1:] {
+				i = i*10 + int(ch-'0')
+			}
+			if i < len(args) {
+				return args[i]
+			}
+			return m
+		})
+	}
+	want := map[bool]string{true: "true", false: "false"}[truth]
+	var out [][]Fact
+	for _, dp := range paths {
+		if dp.Result != want {
+			if dp.Result != "true" && dp.Result != "false" {
+				return nil, false
+			}
+			continue
+		}
+		var fs []Fact
+		for _, f := range dp.Facts {
+			g := Fact{f.Op, subst(f.L), ""}
+			if f.R != "" {
+				g.R = subst(f.R)
+			}
+			if (g.Op == "==" || g.Op == "!=") && g.L > g.R {
+				g.L, g.R = g.R, g.L
+			}
+			fs = append(fs, g)
+		}
+		out = append(out, fs)
+	}
+	return out, true
+}
+
+var helperDepth int
